@@ -4,6 +4,7 @@ def b_State_write_value_exact_or_interval : CR.SrcW.Builder where
   kind := .fill
   tag := ""
   xsd := "decimalExactOrInterval"
+  path := []
   parent := ""
   attrs := []
   gattrs := []
